@@ -141,11 +141,12 @@ def gen_impl_specs(rng, n_random):
     out = []
     noises = [s for s in L.NOISE_SPECS if L.try_noise_model(s) is not None]
     for solver in ("tdvp", "dmrg"):
-        for ops in ([], [2], [2, 2], [3]):
-            for noise in noises:
-                for n in (1, 2, 3):
-                    out.append((dict(ham="Rydberg", eig=["r", "g"], op_dims=ops, n=n),
-                                dict(backend="mps", solver=solver, noise=noise)))
+        for form in L.SOLVER_FORMS:          # how the solver is requested: the decision must depend on the value only
+            for ops in ([], [2], [2, 2], [3]):
+                for noise in noises:
+                    for n in ((1, 2, 3) if form == "enum" else (2,)):
+                        out.append((dict(ham="Rydberg", eig=["r", "g"], op_dims=ops, n=n),
+                                    dict(backend="mps", solver=solver, noise=noise, solver_form=form)))
     for _ in range(n_random):
         dim = rng.choice([2, 2, 3])
         ham = rng.choice(["Rydberg", "XY"])
@@ -154,7 +155,7 @@ def gen_impl_specs(rng, n_random):
         out.append((dict(ham=ham, eig=L.eigenstates(ham, dim), op_dims=[dim] * rng.choice([0, 0, 1, 2, 4]), n=n,
                          bad=bad, spe=rng.choice([0.0, 0.1]), numseed=rng.randint(1, 10 ** 6), nsteps=rng.choice([2, 3])),
                     dict(backend="mps", solver=rng.choice(["tdvp", "dmrg"]), noise=rng.choice(noises),
-                         obs=gen_obs(rng, "ok"))))
+                         obs=gen_obs(rng, "ok"), solver_form=rng.choice(L.SOLVER_FORMS))))
     return out
 
 
@@ -164,32 +165,40 @@ def check_impl(rep: Report, pairs: list, drv_lines: list, sink: list):
         feat = L.features("mps", data, cfg)
         out = L.impl_real(data, cfg)
         if feat["solver"] == "dmrg" and (feat["op_dims"] or feat["cfg_noise"]) and out.startswith("ok"):
-            rep.fail(f"create_impl returned {out.split()[1]} implementation for solver=DMRG with noise "
-                     f"(lindblad_ops={len(feat['op_dims'])}, config noise_types={cfg.noise_model.noise_types})",
+            rep.fail(f"create_impl returned {out.split()[1]} implementation for solver=DMRG (requested as {cfg.solver!r}) "
+                     f"with noise (lindblad_ops={len(feat['op_dims'])}, config noise_types={cfg.noise_model.noise_types})",
                      dict(kind="impl", data=dspec, cfg=cspec), klass="dmrg-accepts-noise")
         if out.startswith("ok") and (out == "ok dmrg") != (feat["solver"] == "dmrg"):
-            rep.fail(f"create_impl returned {out} for solver={feat['solver']}",
+            rep.fail(f"create_impl returned {out} for solver={feat['solver']} (requested as {cfg.solver!r})",
                      dict(kind="impl", data=dspec, cfg=cspec), klass="impl-solver-mismatch")
         drv_lines.append(L.impl_line(feat))
         sink.append(("impl", dict(data=dspec, cfg=cspec), out))
+        drv_lines.append(L.impl_line(feat, test="identity"))
+        sink.append(("impl-identity", dict(data=dspec, cfg=cspec), out))
         rep.hist("impl_outcome", f"{feat['solver']} ops={len(feat['op_dims'])>0} cfgNoise={feat['cfg_noise']} -> {out}")
+        rep.hist("solver_requested_as", f"{cspec.get('solver_form', 'enum')} ({cfg.solver!r})")
 
 
 def check_pipeline(rep: Report, rng, n_random, drv_lines, sink):
     """DMRG (and TDVP for contrast) through PulserData.__init__ + back-end for every noise model."""
     noises = [s for s in L.NOISE_SPECS if L.try_noise_model(s) is not None]
-    cases = [(it, dim, nz, s) for it in ("ising", "XY") for dim in (2, 3) for nz in noises for s in ("dmrg",)]
-    cases += [(rng.choice(["ising", "XY", "foo"]), rng.choice([2, 3, 4]), rng.choice(noises), rng.choice(["dmrg", "tdvp"]))
-              for _ in range(n_random)]
-    for it, dim, nz, solver in cases:
-        out, data, cfg, info = L.pipeline_real("mps", it, dim, nz, solver)
+    cases = [(it, dim, nz, s, form) for it in ("ising", "XY") for dim in (2, 3) for nz in noises for s in ("dmrg",)
+             for form in (("enum", "str", "repr") if (it, dim) == ("ising", 2) else ("enum",))]
+    cases += [(rng.choice(["ising", "XY", "foo"]), rng.choice([2, 3, 4]), rng.choice(noises), rng.choice(["dmrg", "tdvp"]),
+               rng.choice(L.SOLVER_FORMS)) for _ in range(n_random)]
+    for it, dim, nz, solver, form in cases:
+        out, data, cfg, info = L.pipeline_real("mps", it, dim, nz, solver, solver_form=form)
+        if data is not None:
+            bad = L.oracle_run("mps", data, cfg, out, info)
+            if bad and bad[1] == "dmrg-requested-other-impl":
+                rep.fail(bad[0], dict(kind="pipeline", it=it, dim=dim, noise=nz, solver=solver, form=form), klass=bad[1])
         nm = L.noise_model(nz)
         if solver == "dmrg" and nm.noise_types != () and out.startswith("emulate"):
-            rep.fail(f"DMRG returned Results with noise model {nm.noise_types}",
-                     dict(kind="pipeline", it=it, dim=dim, noise=nz, solver=solver), klass="dmrg-emulates-noise")
+            rep.fail(f"DMRG (requested as {cfg.solver!r}) returned Results with noise model {nm.noise_types}",
+                     dict(kind="pipeline", it=it, dim=dim, noise=nz, solver=solver, form=form), klass="dmrg-emulates-noise")
         drv_lines.append(" ".join(["config.accept", "repaired", "mps", L.it_token(it), str(dim),
                                    ",".join(L.kinds_of(nm)) or "-", solver]))
-        sink.append(("pipeline", dict(it=it, dim=dim, noise=nz, solver=solver), out))
+        sink.append(("pipeline", dict(it=it, dim=dim, noise=nz, solver=solver, form=form), out))
         rep.hist("pipeline_outcome", f"{solver} noise={bool(nm.noise_types)} -> {out}")
 
 
@@ -201,15 +210,16 @@ DEV_NOISES = [{"p_false_pos": 0.01, "p_false_neg": 0.02, "state_prep_error": 0.0
 CFG_NOISES = [{}, {"p_false_pos": 0.01, "p_false_neg": 0.02, "state_prep_error": 0.0}, {"relaxation_rate": 0.1}]
 
 
-def device_case(dev, cfgz, prefer, solver):
+def device_case(dev, cfgz, prefer, solver, form="enum"):
     """A real ground-rydberg Pulser sequence on a device with default noise model `dev`, run with
     `prefer_device_noise_model=prefer` and `config.noise_model=cfgz`.
     → (outcome, effective noise types, failure message | None)"""
-    out, basis, data, cfg, info = L.sequence_real("mps", "gr", cfgz, solver, dev_noise=dev, prefer=prefer)
+    out, basis, data, cfg, info = L.sequence_real("mps", "gr", cfgz, solver, dev_noise=dev, prefer=prefer,
+                                                  solver_form=form)
     eff = L.noise_model(dev if prefer else cfgz)
     msg = None
     if solver == "dmrg" and eff.noise_types != () and out.startswith("emulate"):
-        msg = (f"DMRG returned Results although the noise model in effect has {eff.noise_types} "
+        msg = (f"DMRG (requested as {cfg.solver!r}) returned Results although the noise model in effect has {eff.noise_types} "
                f"(prefer_device_noise_model={prefer}, config.noise_model.noise_types="
                f"{L.noise_model(cfgz).noise_types})")
     return out, eff, msg
@@ -221,12 +231,12 @@ def check_device_noise(rep: Report, lines, sink):
     for dev in DEV_NOISES:
         for cfgz in CFG_NOISES:
             for prefer in (False, True):
-                for solver in ("dmrg", "tdvp"):
-                    out, eff, msg = device_case(dev, cfgz, prefer, solver)
+                for solver, form in (("dmrg", "enum"), ("dmrg", "str"), ("dmrg", "repr"), ("tdvp", "enum")):
+                    out, eff, msg = device_case(dev, cfgz, prefer, solver, form)
                     if out == "pulser-refused":
                         rep.count("device_pulser_refused")
                         continue
-                    spec = dict(kind="device", dev=dev, cfg=cfgz, prefer=prefer, solver=solver)
+                    spec = dict(kind="device", dev=dev, cfg=cfgz, prefer=prefer, solver=solver, form=form)
                     if msg:
                         # narrow class: device noise model + prefer_device_noise_model + empty config noise model
                         klass = ("dmrg-ignores-device-noise-model"
@@ -246,7 +256,9 @@ def check(rep: Report, tier: str, seed: int) -> None:
                 "1e-300, exact-floor products; 16 autosave_dt incl. 10, 10.0, nextafter(10,+-inf), 10.0000001, ints, "
                 "inf, nan; every observable alone incl. custom tags) + random cases with products scattered around "
                 "the floor and mixed observable sets; create_impl cases = solver x Lindblad operators x every "
-                "constructible noise model x atom count + random; pipeline cases = interaction type x dim x noise "
+                "constructible noise model x atom count x HOW THE SOLVER IS REQUESTED (Solver member, the string "
+                "'dmrg'/'tdvp', config round-tripped through to_abstract_repr/from_abstract_repr, deep-copied, rebuilt "
+                "from _backend_options as autosave does) + random; pipeline cases = interaction type x dim x noise "
                 "model x solver. distinct = distinct driver lines; non-trivial = the safeguard acted "
                 "(floor applied, reject, reordering switched off, DMRG refusal)")
     rep.assumptions = [
@@ -278,7 +290,15 @@ def check(rep: Report, tier: str, seed: int) -> None:
     dis = 0
     variant = {"asFound": 0, "repaired": 0}
     pending = None
+    last_impl, identity_hits = (None, None), 0
     for line, (kind, spec, out), mo in zip(lines, sink, model):
+        if kind == "impl":
+            last_impl = (mo, out)
+        if kind == "impl-identity":
+            # variant resolution: does the real create_impl behave like `is Solver.DMRG` (by identity) here?
+            if mo is not None and last_impl[0] != mo and last_impl[1] == mo:
+                identity_hits += 1
+            continue
         if kind == "device":
             pending = mo
             continue
@@ -297,6 +317,11 @@ def check(rep: Report, tier: str, seed: int) -> None:
                 rep.broke(f"correspondence Model.Config vs real code ({kind}): spec={L.jd(spec)[:500]} "
                           f"model={mo} impl={out}")
     rep.extra["device_noise_variant_matches"] = variant
+    rep.extra["cases_matching_solver_tested_by_identity_only"] = identity_hits
+    if identity_hits:
+        rep.broke(f"{identity_hits} create_impl case(s) behave like SolverTest.byIdentity (`is Solver.DMRG`: a solver "
+                  "requested as the string 'dmrg' or round-tripped through the abstract repr is not recognised), for "
+                  "which Props/C33 proves dmrg_identity_counterexample")
     if variant.get("asFound"):
         # D22 (fixed in /repo de798eb): a regression is reported, with the replay of the device witness
         rep.broke(f"{variant['asFound']} device-noise case(s) behave like the tree before the D22 fix (run() does not "
@@ -347,9 +372,9 @@ def replay(rep: Report, path: str) -> int:
             elif shown.startswith("ok") and (shown == "ok dmrg") != (feat["solver"] == "dmrg"):
                 msg = f"create_impl returned {shown} for solver={feat['solver']}"
         elif d["kind"] == "device":
-            shown, _, msg = device_case(d["dev"], d["cfg"], d["prefer"], d["solver"])
+            shown, _, msg = device_case(d["dev"], d["cfg"], d["prefer"], d["solver"], d.get("form", "enum"))
         else:
-            shown, *_ = L.pipeline_real("mps", d["it"], d["dim"], d["noise"], d["solver"])
+            shown, *_ = L.pipeline_real("mps", d["it"], d["dim"], d["noise"], d["solver"], d.get("form", "enum"))
             if d["solver"] == "dmrg" and L.noise_model(d["noise"]).noise_types != () and shown.startswith("emulate"):
                 msg = "DMRG returned Results with noise"
         print(f"replay[{d['kind']}]: outcome={shown}:", msg or "property holds on this input now")
